@@ -271,6 +271,8 @@ class Run:
         print(f'[{self.pid}] tier={self.tier} seed={self.seed} evaluations={self.evaluations} '
               f'distinct={len(self.fps)} oracle_evals={coverage["oracle_evaluations"]} wall={wall:.1f}s '
               f'verdict={ev["verdict"]}')
+        for tb in self.extra.get('harness_traceback', []) if isinstance(self.extra.get('harness_traceback'), list) else []:
+            print('HARNESS-EXCEPTION (not an observation of the property):\n' + str(tb))
         if self.violations:
             return 1
         if self.inconclusive:
